@@ -34,6 +34,15 @@
 (* enumerates the step counts; no distance prediction (the verdict is the  *)
 (* maxError relation against the exhaustive scan).                         *)
 (*                                                                         *)
+(* W4 scenes (InitW4/NextW4): search discs much smaller than the index     *)
+(* cell that contains them.  Ten points spread over a cube face leave the  *)
+(* face one index cell with exactly 10 edges; the targets (a point, a      *)
+(* short edge) lie a few fine cells from one indexed point, the distance   *)
+(* limit is a few fine cells, so the covering of the search disc consists  *)
+(* of deep descendants of the index cell (initQueue's clean-up of the      *)
+(* initial cells: Indexed / Subdivided / Disjoint).  TLC enumerates the    *)
+(* target positions; no distance prediction.                               *)
+(*                                                                         *)
 (* W2 scenes (InitW2/NextW2): rectangles and rows of level-G grid cells of *)
 (* several cube faces (loops of 2(w+h) grid edges, far above the           *)
 (* brute-force thresholds), targets at centres of finer cells; containment *)
@@ -66,7 +75,14 @@ CONSTANTS
     KSize,        \* W3: number of (identical) points of the cluster: 10 = one index cell that is queued, not scanned at once
     KA1,          \* W3: steps from the cluster to the target point q1 (along i)
     KA0D,         \* W3: the other target point q0 is KA1 + d steps away (along j), d in KA0D
-    KRA           \* W3: the single point lies this many steps beyond the face boundary on face 1
+    KRA,          \* W3: the single point lies this many steps beyond the face boundary on face 1
+    QLevel,       \* W4 (tiny discs in coarse index cells): grid level of all points
+    QPtCodes,     \* W4: the indexed points (f*QN + i)*QN + j, QN = 2^QLevel: cell centres; ten spread over a face
+                  \*     make that face one index cell with 10 edges (queued with a cell bound, not scanned)
+    QBases,       \* W4: the indexed points next to which the targets lie (subset of QPtCodes)
+    QD,           \* W4: offsets + 4 (0..8: a cfg file has no negative numbers) of the target from the base point,
+                  \*     in cells of level QLevel, both axes
+    QR            \* W4: the distance limit is the distance of QR cells
 
 ASSUME N \in 1..3
 
@@ -373,6 +389,30 @@ CaseW3 ==
          tgt |-> [k |-> "cloud", v |-> <<KT(0, KIC, KJC + a1 + d, far), KT(0, KIC + a1, KJC, far)>>]]
 W3OK == KIC + Max(KA1) < KN /\ KJC + Max(KA1) + Max(KA0D) < KN /\ Max(KRA) < KN
 EmitW3 == IF Len(t) = 4 THEN W3OK /\ PrintT(<<"CASE", ToJson(CaseW3)>>) ELSE TRUE
+
+(***************************************************************************)
+(* W4 scenes                                                               *)
+(***************************************************************************)
+QN == 2 ^ QLevel
+QF(c) == c \div (QN * QN)
+QI(c) == (c \div QN) % QN
+QJ(c) == c % QN
+QCtr(f, i, j) == <<f, QLevel, i, j, 2>>
+InitW4 == t \in {<<b>> : b \in QBases}
+NextW4 == Len(t) = 1 /\ t' \in {<<t[1], di - 4, dj - 4, k, 0>> : di \in QD, dj \in QD, k \in {0, 1}}
+W4OK == \A b \in QBases : \A x \in QD :
+            /\ QI(b) + x - 4 >= 0 /\ QI(b) + x - 3 < QN /\ QJ(b) + x - 4 >= 0 /\ QJ(b) + x - 3 < QN
+            /\ QI(b) + QR < QN
+CaseW4 ==
+    LET b == t[1] di == t[2] dj == t[3]
+        cs == SetToSortSeq(QPtCodes, <)
+        tg(x, y) == QCtr(QF(b), QI(b) + x, QJ(b) + y)
+    IN  [op |-> "eq", w |-> 4, far |-> FALSE,
+         shapes |-> <<[k |-> "pts", v |-> [n \in 1..Len(cs) |-> QCtr(QF(cs[n]), QI(cs[n]), QJ(cs[n]))]]>>,
+         tgt |-> IF t[4] = 0 THEN [k |-> "pt", v |-> <<tg(di, dj)>>]
+                 ELSE [k |-> "edge", v |-> <<tg(di, dj), tg(di + 1, dj + 1)>>],
+         lim |-> <<tg(0, 0), tg(QR, 0)>>]
+EmitW4 == IF Len(t) = 5 THEN W4OK /\ PrintT(<<"CASE", ToJson(CaseW4)>>) ELSE TRUE
 
 \* the grid loops are simple: 2(w+h) distinct corners
 GridLoopsSimple ==
